@@ -104,6 +104,11 @@ def gen_format():
         gen_decoder.generate(os.path.join(REPO, "src"), os.path.join(COQ, "Gen_decoder.v"))
     except Exception as e:
         raise CheckError("translator/decoder.py failed on /repo/src/cdns_decoder.cpp: %s" % e)
+    import timestamp as gen_timestamp
+    try:
+        gen_timestamp.generate(os.path.join(REPO, "src"), os.path.join(COQ, "Gen_timestamp.v"))
+    except Exception as e:
+        raise CheckError("translator/timestamp.py failed on /repo/src/timestamp.cpp, timestamp.h: %s" % e)
     import cursors as gen_cursors
     try:
         gen_cursors.generate(os.path.join(REPO, "src"), os.path.join(COQ, "Gen_cursors.v"))
